@@ -163,6 +163,48 @@ class MovedBody(FlatBody):
         return eval_moved(self.name, scene[0], scene[1])
 
 
+class Twins(Family):
+    """two different bodies whose vertex tuples differ only by a coordinate -1 against -2 (CPython: hash(-1) == hash(-2), so
+    their library hashes collide), queried alternately in one process: nothing remembered about one may answer for the
+    other (w6_C02_3: per-polygon data memoised under hash(self))."""
+    scene_timeout = 120.0
+    PAIRS = {
+        'tri-z0': (X.Pg(((-1, 0, 0), (2, 0, 0), (0, 3, 0))), X.Pg(((-2, 0, 0), (2, 0, 0), (0, 3, 0)))),
+        'tri-yz': (X.Pg(((0, -1, -1), (0, 2, 2), (3, 0, 0))), X.Pg(((0, -2, -2), (0, 2, 2), (3, 0, 0)))),
+        'quad-x': (X.Pg(((-1, 0, 0), (-1, 2, 0), (-1, 2, 2), (-1, 0, 2))), X.Pg(((-2, 0, 0), (-2, 2, 0), (-2, 2, 2), (-2, 0, 2)))),
+        'tetra': (X.Ph(((-1, 0, 0), (2, 0, 0), (0, 3, 0), (0, 1, 2))), X.Ph(((-2, 0, 0), (2, 0, 0), (0, 3, 0), (0, 1, 2)))),
+    }
+
+    def __init__(self, pname, params, step=1):
+        self.name = 'twins/' + pname
+        self.K1, self.K2 = self.PAIRS[pname]
+        fl = flats_for(self.K2, params)
+        seen, self.flats = set(), []
+        for f in fl + flats_for(self.K1, params):
+            if f not in seen:
+                seen.add(f)
+                self.flats.append(f)
+        self.flats = self.flats[::step]
+        self.total = 2 * len(self.flats)
+        # one shard per order: the whole alternating sequence runs in one worker process
+        self._shards = [(0,), (1,)]
+
+    def shards(self):
+        return self._shards
+
+    def scenes(self, shard):
+        first, second = (self.K1, self.K2) if shard[0] == 0 else (self.K2, self.K1)
+        for f in self.flats:
+            yield (f, first)
+            yield (f, second)
+
+    def eval(self, scene):
+        return eval_inter('C02', self.name, scene[0], scene[1], forms=('fn',), measures=True)
+
+    def nontrivial(self, cell):
+        return not cell.endswith('|None')
+
+
 MOVE_V = ((1, 2, -1), (0, 0, 3))
 ID3 = ((1, 0, 0), (0, 1, 0), (0, 0, 1))
 
@@ -326,6 +368,8 @@ def families(tier):
         step = 4
     for b in moved:
         fams.append(MovedBody(b, A.P1, params, step))
+    for pname in (('tri-z0', 'tetra') if tier == 'quick' else Twins.PAIRS):
+        fams.append(Twins(pname, (-1, 0, F(1, 2), 2), step=(5 if tier == 'quick' else 1)))
     return fams
 
 
